@@ -20,7 +20,6 @@ import (
 	"math/rand"
 	"runtime"
 	"sort"
-	"strings"
 	"time"
 
 	"github.com/olric-data/olric/internal/cluster/partitions"
@@ -104,10 +103,7 @@ func (s *Service) evictKeys() {
 	part := s.primary.PartitionByID(partID)
 	part.Map().Range(func(name, tmp interface{}) bool {
 		f := tmp.(*fragment)
-		// Fragments are registered as "dmap.<name>". The scan needs the DMap's own
-		// name: it hashes keys with it to reach the backup copies and the previous
-		// owners, and looks up the DMap's eviction configuration by it.
-		s.scanFragmentForEviction(partID, strings.TrimPrefix(name.(string), "dmap."), f)
+		s.scanFragmentForEviction(partID, name.(string), f)
 		// this breaks the loop, we only scan one dmap instance per call
 		return false
 	})
